@@ -30,7 +30,7 @@ def lib_args(dialect):
     return []
 
 
-def run_loop(binfo, scratch, script, dialect, plan_extra=(), chunks=None, eof=None, cpu=25, files=None):
+def run_loop(binfo, scratch, script, dialect, plan_extra=(), chunks=None, eof=None, cpu=15, files=None):
     w = scratch.new()
     os.makedirs(os.path.join(w, "sb"))
     for fn, text in (files or {}).items():
@@ -253,7 +253,13 @@ def main(argv):
             s = sessions[i]
             cls = key.rsplit(":", 1)[1]
 
+            t_min = time.time()
+
             def fails(fl):
+                # a wall-clock cap on shrinking: sessions that end in the loop's `Redefine?' dialogue
+                # spin until the CPU cap, five worlds per trial
+                if time.time() - t_min > 120:
+                    return False
                 s2 = dict(s, forms=renumber(fl), cut=None)
                 v2, _ = judge_session(binfo, scratch, s2)
                 return any(c == cls for c, _ in v2)
